@@ -32,7 +32,7 @@ fn store(o: &[i8; 4], len: usize) -> ParsedParameters {
     p
 }
 
-//@h {"id":"C11.K.axisswap.fwd","props":["C11","C10","C09"],"tier":"quick","kind":"complete","timeout":900,"text":"axisswap fwd for every signed partial permutation of 1..4 axes on the probe tuple: out[i] = sgn_i * in[|o_i|-1] for i < len, other axes bit-identical, returns n"}
+//@h {"id":"C11.K.axisswap.fwd","props":["C11","C10","C09"],"tier":"quick","kind":"complete","timeout":1800,"text":"axisswap fwd for every signed partial permutation of 1..4 axes on the probe tuple: out[i] = sgn_i * in[|o_i|-1] for i < len, other axes bit-identical, returns n"}
 #[kani::proof]
 #[kani::unwind(9)]
 #[kani::stub(crate::op::ParsedParameters::series, stub_series)]
@@ -54,7 +54,7 @@ fn c11_axisswap_fwd() {
     kani::cover!(len == 4 && o[0] == -4, "four-axis signed permutation reachable");
 }
 
-//@h {"id":"C11.K.axisswap.inv","props":["C11","C01","C09"],"tier":"quick","kind":"complete","timeout":900,"text":"axisswap inv is the exact reverse: inv(fwd(x)) == x and fwd(inv(x)) == x bitwise for every signed partial permutation (probe tuple)"}
+//@h {"id":"C11.K.axisswap.inv","props":["C11","C01","C09"],"tier":"quick","kind":"complete","timeout":1800,"text":"axisswap inv is the exact reverse: inv(fwd(x)) == x and fwd(inv(x)) == x bitwise for every signed partial permutation (probe tuple)"}
 #[kani::proof]
 #[kani::unwind(9)]
 #[kani::stub(crate::op::ParsedParameters::series, stub_series)]
@@ -76,7 +76,7 @@ fn c11_axisswap_inv() {
     assert!(r4 == 1 && same4(&data[0], &Coor4D(PROBE)), "C01.K.axisswap.roundtrip: forward after inverse is the identity, bit for bit");
 }
 
-//@h {"id":"C11.K.axisswap.default","props":["C11","C13"],"tier":"quick","kind":"complete","timeout":600,"text":"axisswap without an order list is the identity in both directions for all f64 bits"}
+//@h {"id":"C11.K.axisswap.default","props":["C11","C13"],"tier":"quick","kind":"complete","timeout":1800,"text":"axisswap without an order list is the identity in both directions for all f64 bits"}
 #[kani::proof]
 #[kani::unwind(9)]
 #[kani::stub(crate::op::ParsedParameters::series, stub_series)]
